@@ -3,6 +3,7 @@ CONSTANTS
   MaxLen = 5
   ZeroEof = FALSE
   Quits = {1, 2}
+  Socks = {FALSE}
   Filters = {7}
 INVARIANT InvNothingLeft
 INVARIANT InvSlices
